@@ -267,7 +267,26 @@ def gen_obj(rng, frame, ego, is_gt, family="autoware"):
     if frame == "cam":
         return d
     d["pos"] = ego_to_frame(frame, ego, (ex, ey, lat(rng, -1, 1)))
+    d["ego_xy"] = [ex, ey]        # the ego-frame coordinates the object was generated at (independent of every getter)
     return d
+
+
+def facts_vs_generator(specs, facts, frame, tf, who):
+    """The ego-relative x / y / planar distance the facts carry (read through transforms.transform and get_distance_bev, the very calls
+    the filter makes) must be the coordinates the objects were GENERATED at in the ego frame."""
+    import math
+
+    if frame == "cam" or (frame == "map" and (tf is None or tf.get("empty"))):
+        return None          # not ego-relative in these configurations (third branch of the filter)
+    for i, (d, f) in enumerate(zip(specs, facts)):
+        if d.get("ego_xy") is None or f["pos"] is None:
+            continue
+        ex, ey = d["ego_xy"]
+        want = [ex, ey, math.hypot(ex, ey)]
+        for c, nm in enumerate(("x", "y", "planar distance")):
+            if abs(f["pos"][c] - want[c]) > 1e-7 * (1.0 + abs(want[c])):
+                return f"{who} {i}: ego-relative {nm} is {f['pos'][c]} but the object sits at ({ex}, {ey}) in the ego frame ({nm} {want[c]})"
+    return None
 
 
 def ego_to_frame(frame, ego, p):
@@ -461,6 +480,9 @@ class FilterObjectsCorr(Corr):
     def oracle(self, case, obs):
         if obs.get("mutated"):
             return "filter_objects mutated its input (objects, list or parameter lists) or returned the input list itself"
+        m = facts_vs_generator(case["objs"], obs["facts"], case["frame"], case["tf"], "object")
+        if m:
+            return m
         kept = obs["kept"]
         wf = cfg_well_formed(case["cfg"]) and not (
             case["is_gt"] and case["cfg"].get("min_pts") is not None and any(f["pts"] is None for f in obs["facts"]))
@@ -567,6 +589,8 @@ class FilterResultsCorr(Corr):
                     g = gi.pop()
                     if rng.random() < 0.5:      # put the estimate next to its ground truth
                         ests[e]["pos"] = [gts[g]["pos"][0] + rng.choice([0.0, 0.125, -0.25]), gts[g]["pos"][1], gts[g]["pos"][2]]
+                        # (moved in the coordinates of the objects' frame: the generated ego coordinates are known only for base_link)
+                        ests[e]["ego_xy"] = ests[e]["pos"][:2] if frame == "base_link" else None
                     pairs.append([e, g])
                 else:
                     pairs.append([e, None])
@@ -624,6 +648,10 @@ class FilterResultsCorr(Corr):
     def oracle(self, case, obs):
         if obs.get("mutated"):
             return "filter_object_results mutated its input or returned the input list itself"
+        m = (facts_vs_generator(case["ests"], obs["est_facts"], case["frame"], case["tf"], "estimate")
+             or facts_vs_generator(case["gts"], obs["gt_facts"], case["frame"], case["tf"], "ground truth"))
+        if m:
+            return m
         kept = obs["kept"]
         cfg = case["cfg"]
         wf = cfg_well_formed(cfg) and not (cfg.get("min_pts") is not None and any(f["pts"] is None for f in obs["gt_facts"]))
